@@ -48,6 +48,11 @@ _COV = re.compile(r"^<(\w+) line \d+, col \d+ to line \d+, col \d+ of module (\w
 _STATE_HDR = re.compile(r"^State (\d+): <(.*)>$")
 
 
+# small jobs (trace batches, observers, tiny models): JIT level 1 and few GC/compiler threads -- a quarter of the CPU
+# time of the default JVM settings for runs of a few thousand states, which matters when many run side by side
+LIGHT = ("-XX:TieredStopAtLevel=1", "-XX:ParallelGCThreads=2", "-XX:CICompilerCount=1", "-Xmx3g")
+
+
 def _java_cmd(jvm_opts=()):
     return ["java", "-XX:+UseParallelGC", "-Xss16m", *jvm_opts, "-cp", JAR + ":" + CM, "tlc2.TLC"]
 
